@@ -162,7 +162,8 @@ func modeOfType(t ast.ValueType) byte {
 func call(c *compiled, s step, e entry, sc *stateful.Scope) (out any) {
 	defer func() {
 		if p := recover(); p != nil {
-			out = []any{"E", "PANIC"}
+			// a panic escaping the API is not an evaluation error: the specification accepts this outcome for no call
+			out = []any{"X", "panic"}
 		}
 	}()
 	ex := c.ex[s.cp]
